@@ -200,6 +200,21 @@ class ClientRoles:
     def _regex_attrs(self):
         out = {}
         from sa.consteval import Evaluator, TOP
+        # patterns shared by all instances: compiled in the class body
+        ev = Evaluator(self.program, self.module, self.cls)
+        for n in self.cls.node.body:
+            if isinstance(n, (ast.Assign, ast.AnnAssign)) and isinstance(n.value, ast.Call) and call_name(n.value) == "compile" \
+                    and isinstance(n.value.func, ast.Attribute) and norm(n.value.func.value) == "re":
+                pat = ev.eval(n.value.args[0]) if n.value.args else TOP
+                flags = 0
+                for a in n.value.args[1:]:
+                    flags |= regex_flags(a)
+                for k in n.value.keywords:
+                    if k.arg == "flags":
+                        flags |= regex_flags(k.value)
+                for t in (n.targets if isinstance(n, ast.Assign) else [n.target]):
+                    if isinstance(t, ast.Name):
+                        out[mangle(self.cls.name, t.id)] = (pat, flags, n)
         for f in self.methods.values():
             ev = Evaluator(self.program, self.module, self.cls)
             for n in walk_no_nested(f.node):
